@@ -332,8 +332,9 @@ func (k Keeper) UpdateTokenPairERC20(ctx sdk.Context, erc20Addr, newERC20Addr co
 	newID := pair.GetID()
 	// Set the new pair
 	k.SetTokenPair(ctx, pair)
-	// Overwrite the value because id was changed
-	k.SetDenomMap(ctx, pair.Denoms[0], newID)
+	// Overwrite the values because id was changed: DeleteTokenPair removed the
+	// index entry of every denomination of the pair, so every one is set again
+	k.SetDenomsMap(ctx, pair.Denoms, newID)
 	// Add the new address
 	k.SetERC20Map(ctx, newERC20Addr, newID)
 	return pair, nil
